@@ -49,12 +49,17 @@ def r1(ctx):
     for p in ps:
         d = P.decisions_dict(p)
         vk = [v for k, v in p.decisions if k[0] == "discr" and "self" in k[1]]
-        if len(vk) != 1 or p.ret[0] != "call":
-            ctx.bad("C15.R1", m.path, "form", "path not of the form match self { V => iter.any/all(closure) } (UNSUPPORTED-FORM): %s -> %s" % (P.fmt_decisions(p), p.ret[:2]), m.sp)
+        ret = p.ret
+        outer_neg = False
+        while ret[0] == "expr" and ret[1] == "Not" and len(ret) > 2:
+            outer_neg = not outer_neg
+            ret = ret[2]
+        if len(vk) != 1 or ret[0] != "call":
+            ctx.bad("C15.R1", m.path, "form", "path not of the form match self { V => [!]iter.any/all(closure) } (UNSUPPORTED-FORM): %s -> %s" % (P.fmt_decisions(p), p.ret[:2]), m.sp)
             continue
         variant = vnames[vk[0]] if isinstance(vk[0], int) else [x for i, x in enumerate(vnames) if i not in [v for k, v in p.decisions]][0]
-        t = p.ret[2]
-        q = p.ret[1]
+        t = ret[2]
+        q = ret[1]
         cl = [x for x in t["f"]["tdefs"] if x and "{closure" in x]
         if q not in ("any", "all") or len(cl) != 1:
             ctx.bad("C15.R1", m.path, "form.%s" % variant, "returns %s (UNSUPPORTED-FORM)" % q, t["sp"])
@@ -80,6 +85,10 @@ def r1(ctx):
             ctx.bad("C15.R1", cb.path, "closure-form", "closure is not `[!]pattern.matches(key)` (UNSUPPORTED-FORM)", cb.sp)
             continue
         quant = "exists" if q == "any" else "forall"
+        if outer_neg:
+            # De Morgan: !any(p) = all(!p), !all(p) = any(!p)
+            quant = "forall" if quant == "exists" else "exists"
+            pol = "-" if pol == "+" else "+"
         rows[variant] = (quant, pol)
     spec = {"NothingExcept": ("exists", "+"), "EverythingExcept": ("forall", "-")}
     for v in spec:
@@ -197,20 +206,29 @@ def r3(ctx):
         tags = [c for c in consts if c in ("prefix", "exact") or (c.isalnum() and len(c) < 12)]
         disp.setdefault(variant, set()).update(tags[:1])
         enc_disp.update(tags[1:2])
+    kind_tags = set()
+    for v in disp.values():
+        kind_tags |= v
     parse = {}
     enc_parse = set()
-    for p in P.explore(fs):
+    for p in P.explore(fs, loop_bound=1):
         if p.ret[0] == "variant" and p.ret[1] == "Ok" and p.ret[2] and p.ret[2][0] == "variant":
             variant = p.ret[2][1]
             for k, v in p.decisions:
-                if k[0] == "cmp" and k[1] == "==" and v == 1:
-                    lit = [x for x in (k[2], k[3]) if x.startswith("const:")]
-                    if lit:
-                        s = lit[0][len("const:"):].strip('"')
-                        if "arg:s" in k[2] + k[3] and "call:split_once(call" not in k[2] + k[3]:
-                            parse.setdefault(variant, set()).add(s)
-                        else:
-                            enc_parse.add(s)
+                kk, neg = k, False
+                while kk[0] == "not":
+                    kk, neg = kk[1], not neg
+                if kk[0] == "cmp" and kk[1] in ("==", "!="):
+                    truth = (bool(v) != neg) if kk[1] == "==" else (bool(v) == neg)
+                    if not truth:
+                        continue
+                    for side in (kk[2], kk[3]):
+                        if side.startswith("const:"):
+                            tag = side[len("const:"):].strip('"')
+                            if tag in kind_tags:
+                                parse.setdefault(variant, set()).add(tag)
+                            elif tag.isalnum() and len(tag) < 12:
+                                enc_parse.add(tag)
     for v in fadt:
         ctx.check(disp.get(v) and disp.get(v) == parse.get(v), "C15.R3", d.path, "tag-agreement.%s" % v,
                   "Display writes %s for %s, FromStr maps %s to it" % (sorted(disp.get(v, [])), v, sorted(parse.get(v, []))), d.sp)
